@@ -114,3 +114,70 @@ def dbl(ws, doubled):
         if doubled:
             out.append(x)
     return out
+
+
+# ---- CEA-608 special / extended character sets (independent transcription, same order as the code assignments) ----
+SPECIAL_608 = ["®", "°", "½", "¿", "™", "¢", "£", "♪", "à", " ", "è", "â", "ê", "î", "ô", "û"]
+EXT1_608 = ["Á", "É", "Ó", "Ú", "Ü", "ü", "‘", "¡", "*", "’", "—", "©", "℠", "•", "“", "”",
+            "À", "Â", "Ç", "È", "Ê", "Ë", "ë", "Î", "Ï", "ï", "Ô", "Ù", "ù", "Û", "«", "»"]
+EXT2_608 = ["Ã", "ã", "Í", "Ì", "ì", "Ò", "ò", "Õ", "õ", "{", "}", "\\", "^", "_", "¦", "~",
+            "Ä", "ä", "Ö", "ö", "ß", "¥", "¤", "|", "Å", "å", "Ø", "ø", "┌", "┐", "└", "┘"]
+BASIC_VISIBLE = [c for c in BASIC_CHARS if c != " "]
+
+
+def rand_tokens(rng, n, p_special=0.08, p_ext=0.08, p_space=0.12, p_nonascii=0.12):
+    """n displayed cells drawn from EVERY code of the three character tables; no blank at either end.
+    token = basic character | ('sp', i) | ('ext', stand-in, group, i)"""
+    toks = []
+    prev = None
+    for k in range(n):
+        r = rng.random()
+        if r < p_special:
+            i = rng.choice([j for j in range(16) if j != 9])
+            if prev == ("sp", i):                 # an immediately repeated special code is one character (608)
+                i = (i + 1) % 16 if (i + 1) % 16 != 9 else 10
+            t = ("sp", i)
+        elif r < p_special + p_ext:
+            t = ("ext", rng.choice("aeoucAEOUnN-x"), rng.randint(0, 1), rng.randint(0, 31))
+        elif r < p_special + p_ext + p_space and 0 < k < n - 1 and prev != " ":
+            t = " "
+        elif r < p_special + p_ext + p_space + p_nonascii:
+            t = rng.choice(list(BASIC_EXC))
+        else:
+            t = rng.choice(BASIC_VISIBLE)
+        toks.append(t)
+        prev = t
+    return toks
+
+
+def tokens_text(toks):
+    """what a 608 screen shows for the tokens"""
+    out = []
+    for t in toks:
+        if isinstance(t, str):
+            out.append(t)
+        elif t[0] == "sp":
+            out.append(SPECIAL_608[t[1]])
+        else:
+            out.append((EXT1_608 if t[2] == 0 else EXT2_608)[t[3]])
+    return "".join(out)
+
+
+def tokens_words(toks, doubled):
+    """code words: basic characters in pairs (padded before a code / at the end), special and extended codes doubled
+    in doubled mode; an extended character is preceded by its stand-in"""
+    ws = []
+    run = ""
+    for t in toks:
+        if isinstance(t, str):
+            run += t
+        elif t[0] == "sp":
+            ws += text_words(run)
+            run = ""
+            ws += dbl([special(t[1])], doubled)
+        else:
+            ws += text_words(run + t[1])
+            run = ""
+            ws += dbl([extended(t[2], t[3])], doubled)
+    ws += text_words(run)
+    return ws
